@@ -33,7 +33,7 @@ func TestMain(m *testing.M) { rep.Main(m, ID) }
 type Case struct {
 	Choice yamlgen.Choice `json:"choice"`
 	Fields []string       `json:"fields"`
-	Kind   int            `json:"kind"` // 0: backtick command substitution (whole value), 1: appended to the default value, 2: ${VAR} reference
+	Kind   int            `json:"kind"` // 0: backtick command substitution (whole value), 1: appended to the default value, 2: ${VAR} reference, 3: forward env reference + substitution, 4/5: substitution embedded in an unquoted token (alone / appended as NAME=pre-`cmd`.suf)
 	Entry  string         `json:"entry,omitempty"`
 }
 
@@ -175,6 +175,15 @@ func render(e *envT, c Case) []byte {
 			return def + " `touch " + e.canaryPath(i) + "`"
 		case 2:
 			return def + "${VERIF_CANARY_REF}"
+		case 4, 5:
+			// a substitution EMBEDDED in an unquoted token (report-`cmd`.csv): the
+			// command is a blank-free path to a script that leaves the canary
+			script := filepath.Join(e.root, fmt.Sprintf("script_%d.sh", i))
+			_ = os.WriteFile(script, []byte("#!/bin/sh\ntouch "+e.canaryPath(i)+"\n"), 0o755)
+			if c.Kind == 4 {
+				return "report-`" + script + "`.csv"
+			}
+			return def + " VERIF_K=report-`" + script + "`.csv"
 		default:
 			// a reference to a key that the same env block defines further
 			// down (or at all), next to a substitution: resolving entries in
@@ -351,7 +360,7 @@ func TestCatalogue(t *testing.T) {
 	for _, ch := range maximalChoices() {
 		for _, f := range yamlgen.Fields(ch) {
 			nFields[f] = true
-			for kind := 0; kind < 4; kind++ {
+			for kind := 0; kind < 6; kind++ {
 				i++
 				if i%nsh != shard {
 					continue
@@ -375,7 +384,7 @@ func TestCatalogue(t *testing.T) {
 	}
 	rep.Label("positive-control-ok")
 	if shard == 0 {
-		rep.ExhaustiveSpace(fmt.Sprintf("catalogue of %d string-valued fields x %d entry points x 4 canary kinds over 3 maximal definitions", len(nFields), len(entries)))
+		rep.ExhaustiveSpace(fmt.Sprintf("catalogue of %d string-valued fields x %d entry points x 6 canary kinds over 3 maximal definitions", len(nFields), len(entries)))
 		rep.Sample(map[string]any{"field": "steps[0].preconditions[0].condition", "entry": "DAGStore.UpdateSpec", "yaml": string(render(e, Case{Choice: ch, Fields: []string{"steps[0].preconditions[0].condition"}, Kind: 0}))[:600]})
 	}
 }
@@ -389,7 +398,7 @@ func TestProp(t *testing.T) {
 		if n > len(sel) {
 			n = len(sel)
 		}
-		c := Case{Choice: ch, Fields: sel[:n], Kind: rapid.IntRange(0, 3).Draw(t, "kind")}
+		c := Case{Choice: ch, Fields: sel[:n], Kind: rapid.IntRange(0, 5).Draw(t, "kind")}
 		c.Entry = rapid.SampledFrom(entries).Draw(t, "entry").name
 		evalCase(t, c, "random", false)
 	})
